@@ -13,9 +13,10 @@
 
    Integers: Quiver integers are unbounded; the bit builtins (__integer_and/or/not/shift/popcount__)
    work on the i64 image and answer InvalidArgument outside it (quiver-core/src/builtins/integer.rs).
-   Every operand that dict.qv passes to them lies in [-2^32, 2^32] when 0 <= hash < 2^32 and
-   0 <= shift <= 35 (lemmas `bit_range`, `frag_range` in HamtProofs.v), so the error arm is not
-   modelled; the left-shift wrap of i64 is (`wrap_i64`).
+   Every operand that dict.qv passes to them lies in [-2^32, 2^32] when 0 <= hash < 2^32
+   (fragments are < 32, bits are 2^f < 2^32, bitmaps stay in [0, 2^32): HamtBits.v
+   `fragment_range`, `int_shift_1`, `set_range`, `clear_range`), so the error arm is not modelled;
+   the left-shift wrap of i64 is (`wrap_i64`).
 
    Recursion: dict.qv recurses on the tree / on hash bits without a bound. The model uses fuel;
    `None` means "out of fuel". C19_put/C19_remove/C19_get prove that the constant `FUEL` is always
